@@ -5,11 +5,12 @@
 import json, os, shutil, sys
 ARGS = sys.argv[1:]
 ROUND3 = ARGS[:1] == ["--round3"]
-if ROUND3:
+ROUND4 = ARGS[:1] == ["--round4"]
+if ROUND3 or ROUND4:
     ARGS = ARGS[1:]
 for p in ARGS:
-    for x, y in ((("e", "e"), ("f", "f")) if ROUND3 else (("a", "c"), ("b", "d"))):
-        src = ("/tmp/sc/%s/_out" if ROUND3 else "/tmp/sb/%s/_out") % p
+    for x, y in ((("g", "g"), ("h", "h")) if ROUND4 else (("e", "e"), ("f", "f")) if ROUND3 else (("a", "c"), ("b", "d"))):
+        src = ("/tmp/sd/%s/_out" if ROUND4 else "/tmp/sc/%s/_out" if ROUND3 else "/tmp/sb/%s/_out") % p
         pf = "%s/mut_%s.patch.diff" % (src, x)
         cf = "%s/confirm_%s.json" % (src, x)
         if not (os.path.exists(pf) and os.path.exists(cf)):
@@ -27,8 +28,8 @@ for p in ARGS:
         first = ""
         if os.path.exists(notes):
             first = " ".join(open(notes).read().split())[:400]
-        json.dump({"id": "%s_%s" % (p, y), "breaks_property": p, "round": 3 if ROUND3 else 2,
-                   "origin": "independent sub-agent (%s round) given only the property text, the list of situations the earlier changes need to manifest, and a scratch worktree" % ("third" if ROUND3 else "second"),
+        json.dump({"id": "%s_%s" % (p, y), "breaks_property": p, "round": 4 if ROUND4 else 3 if ROUND3 else 2,
+                   "origin": "independent sub-agent (%s round) given only the property text, the list of situations the earlier changes need to manifest, and a scratch worktree" % ("fourth" if ROUND4 else "third" if ROUND3 else "second"),
                    "needs_to_manifest": first,
                    "confirmed_by_me": {"command": "tools/confirm_seed.py <scratch worktree> patch.diff demo.rs", "confirmed": True,
                                        "suite_with_change": c.get("suite_with_change"), "demo": {k: v for k, v in c.items() if k.startswith("demo")}},
